@@ -5,7 +5,6 @@ import (
 	"encoding/json"
 	"fmt"
 	"os"
-	"sort"
 	"strings"
 
 	csvds "github.com/cube2222/octosql/datasources/csv"
@@ -89,6 +88,23 @@ func jsonFileScenario(r *Run) {
 			"o":  map[string]any{"x": float64(lt.Draw(100)) / 4, "y": funnyStrings[lt.Draw(len(funnyStrings))] + "-"},
 			"a":  []any{float64(lt.Draw(5)), float64(i % 3)},
 		}
+		// arrays with null elements, nested arrays, arrays of objects whose keys vary
+		switch lt.Draw(4) {
+		case 0:
+			obj["l"] = []any{"c", nil, "d" + fmt.Sprint(i%7)}
+		case 1:
+			obj["l"] = []any{}
+		case 2:
+			obj["l"] = []any{nil}
+		default:
+			obj["l"] = []any{"x"}
+		}
+		if lt.Draw(2) == 0 {
+			obj["oo"] = []any{map[string]any{"name": "gear"}, map[string]any{"name": "cog", "qty": float64(i % 5)}, map[string]any{"name": "pin", "qty": nil}}
+		} else {
+			obj["oo"] = []any{map[string]any{"name": "nut", "qty": float64(1)}}
+		}
+		obj["nn"] = []any{[]any{float64(4), nil}, []any{float64(i % 2)}}
 		if lt.Draw(3) == 0 {
 			obj["n"] = nil
 		} else {
@@ -201,7 +217,7 @@ func jsonFileScenario(r *Run) {
 			return
 		}
 		for j, name := range names {
-			if d := jsonValueDiff(got[i][j], want[name]); d != "" {
+			if d := jsonValueDiff(got[i][j], want[name], schema.Fields[j].Type); d != "" {
 				r.Violate("C23", "row_content", attrs, "record %d (of %d, workers=%d) column %s: %s; file line is %s", i, nLines, workers, name, d, lines[i])
 				return
 			}
@@ -209,8 +225,25 @@ func jsonFileScenario(r *Run) {
 	}
 }
 
-// jsonValueDiff compares an octosql value with an independently decoded JSON value.
-func jsonValueDiff(v octosql.Value, x any) string {
+// typeAlternative finds the alternative of t (possibly a union) with the given type id.
+func typeAlternative(t octosql.Type, id octosql.TypeID) (octosql.Type, bool) {
+	if t.TypeID == id {
+		return t, true
+	}
+	if t.TypeID == octosql.TypeIDUnion {
+		for _, alt := range t.Union.Alternatives {
+			if alt.TypeID == id {
+				return alt, true
+			}
+		}
+	}
+	return octosql.Type{}, false
+}
+
+// jsonValueDiff compares an octosql value with an independently decoded JSON value. The column's
+// type is only used for the layout of objects (which field sits where; a key absent from the
+// JSON object is NULL).
+func jsonValueDiff(v octosql.Value, x any, t octosql.Type) string {
 	switch xx := x.(type) {
 	case nil:
 		if v.TypeID != octosql.TypeIDNull {
@@ -232,24 +265,33 @@ func jsonValueDiff(v octosql.Value, x any) string {
 		if v.TypeID != octosql.TypeIDList || len(v.List) != len(xx) {
 			return fmt.Sprintf("got %s, file has a list of %d", ValString(v), len(xx))
 		}
+		lt, ok := typeAlternative(t, octosql.TypeIDList)
+		var et octosql.Type
+		if ok && lt.List.Element != nil {
+			et = *lt.List.Element
+		}
 		for i := range xx {
-			if d := jsonValueDiff(v.List[i], xx[i]); d != "" {
+			if d := jsonValueDiff(v.List[i], xx[i], et); d != "" {
 				return d
 			}
 		}
 	case map[string]any:
-		keys := make([]string, 0, len(xx))
-		for k := range xx {
-			keys = append(keys, k)
+		st, ok := typeAlternative(t, octosql.TypeIDStruct)
+		if v.TypeID != octosql.TypeIDStruct || !ok || len(v.Struct) != len(st.Struct.Fields) {
+			return fmt.Sprintf("got %s, file has an object %v", ValString(v), xx)
 		}
-		sort.Strings(keys)
-		if v.TypeID != octosql.TypeIDStruct || len(v.Struct) != len(keys) {
-			return fmt.Sprintf("got %s, file has an object with %d fields", ValString(v), len(keys))
-		}
-		for i, k := range keys {
-			if d := jsonValueDiff(v.Struct[i], xx[k]); d != "" {
-				return d
+		seen := 0
+		for i, f := range st.Struct.Fields {
+			fx, present := xx[f.Name]
+			if present {
+				seen++
 			}
+			if d := jsonValueDiff(v.Struct[i], fx, f.Type); d != "" {
+				return f.Name + ": " + d
+			}
+		}
+		if seen != len(xx) {
+			return fmt.Sprintf("got %s, file object %v has keys the column type lacks", ValString(v), xx)
 		}
 	}
 	return ""
@@ -358,10 +400,56 @@ func csvFileScenario(r *Run) {
 	r.Shape(ext, nRows, bufSize, fmt.Sprint(previewChunks), fmt.Sprint(execChunks))
 	r.Sched(sb.String())
 	r.NonTrivial(nRows >= 2)
-	got, schema, cerr, rerr := runFileSource(r, csvds.Creator(rune(sep)), path, map[string]string{}, bufSize, previewChunks, execChunks)
+	// either the datasource alone, or SELECT <some columns> through the planner with the optimiser on
+	// (which prunes the datasource's schema to the columns the query uses)
+	selections := [][]string{nil, {"name"}, {"qty", "id"}, {"name", "qty"}, {"qty"}, {"id", "name", "qty"}, {"name", "id"}}
+	sel := selections[hdr.Draw(len(selections))]
+	var got [][]octosql.Value
+	var cerr, rerr error
+	col := map[string]int{}
+	if sel == nil {
+		var schema physical.Schema
+		got, schema, cerr, rerr = runFileSource(r, csvds.Creator(rune(sep)), path, map[string]string{}, bufSize, previewChunks, execChunks)
+		for i, f := range schema.Fields {
+			col[f.Name] = i
+		}
+	} else {
+		for i, c := range sel {
+			col[c] = i
+		}
+		sql := "SELECT t." + strings.Join(sel, ", t.") + " FROM " + path + " t"
+		r.Log("sql: %s", sql)
+		disk := NewDisk(r, nil)
+		disk.Plan(path, 0, OpenPlan{Chunks: previewChunks, ErrAt: -1})
+		disk.Plan(path, 1, OpenPlan{Chunks: execChunks, ErrAt: -1})
+		installSim(nil, disk)
+		simConfig.Files.BufferSizeBytes = bufSize
+		planned, err := PlanSQL(bubbleCtx(), sql, map[string]*SimTable{}, true)
+		if err != nil {
+			cerr = err
+		} else {
+			func() {
+				defer func() {
+					if p := recover(); p != nil {
+						rerr = fmt.Errorf("panic: %v", p)
+					}
+				}()
+				rerr = planned.Node.Run(execution.ExecutionContext{Context: bubbleCtx()}, func(ctx execution.ProduceContext, rec execution.Record) error {
+					got = append(got, rec.Values)
+					return nil
+				}, func(execution.ProduceContext, execution.MetadataMessage) error { return nil })
+			}()
+		}
+		installSim(nil, nil)
+		simConfig.Files.BufferSizeBytes = 4096 * 1024
+		r.FaultN("short_read", disk.FiredCount("short_read"))
+	}
 	r.AddEvents(len(got))
 	r.Log("creator err=%v run err=%v records=%d", cerr, rerr, len(got))
 	if cerr != nil {
+		if nRows == 0 && sel != nil {
+			return // no row to infer column types from: the planner rejects the typed query
+		}
 		r.Violate("C23", "schema_error", attrs, "%s schema preview failed on a well-formed file: %v", ext, cerr)
 		return
 	}
@@ -373,28 +461,30 @@ func csvFileScenario(r *Run) {
 		r.Violate("C23", "row_count", attrs, "file has %d rows, source produced %d records", nRows, len(got))
 		return
 	}
-	col := map[string]int{}
-	for i, f := range schema.Fields {
-		col[f.Name] = i
-	}
 	for i, rw := range rows {
 		g := got[i]
 		bad := ""
-		if v := g[col["id"]]; v.TypeID != octosql.TypeIDInt || v.Int != rw.id {
-			bad = fmt.Sprintf("id: got %s want %d", ValString(v), rw.id)
+		if c, ok := col["id"]; ok {
+			if v := g[c]; v.TypeID != octosql.TypeIDInt || v.Int != rw.id {
+				bad = fmt.Sprintf("id: got %s want %d", ValString(v), rw.id)
+			}
 		}
-		if v := g[col["name"]]; v.TypeID != octosql.TypeIDString || v.Str != rw.name {
-			bad = fmt.Sprintf("name: got %s want %q", ValString(v), rw.name)
+		if c, ok := col["name"]; ok {
+			if v := g[c]; v.TypeID != octosql.TypeIDString || v.Str != rw.name {
+				bad = fmt.Sprintf("name: got %s want %q", ValString(v), rw.name)
+			}
 		}
-		v := g[col["qty"]]
-		if rw.qty == nil && v.TypeID != octosql.TypeIDNull {
-			bad = fmt.Sprintf("qty: got %s want NULL", ValString(v))
-		}
-		if rw.qty != nil && (v.TypeID != octosql.TypeIDInt || v.Int != *rw.qty) {
-			bad = fmt.Sprintf("qty: got %s want %d", ValString(v), *rw.qty)
+		if c, ok := col["qty"]; ok {
+			v := g[c]
+			if rw.qty == nil && v.TypeID != octosql.TypeIDNull {
+				bad = fmt.Sprintf("qty: got %s want NULL", ValString(v))
+			}
+			if rw.qty != nil && (v.TypeID != octosql.TypeIDInt || v.Int != *rw.qty) {
+				bad = fmt.Sprintf("qty: got %s want %d", ValString(v), *rw.qty)
+			}
 		}
 		if bad != "" {
-			r.Violate("C23", "row_content", attrs, "record %d of %d: %s", i, nRows, bad)
+			r.Violate("C23", "row_content", attrs, "record %d of %d (selected columns %v): %s", i, nRows, sel, bad)
 			return
 		}
 	}
